@@ -7,7 +7,7 @@ a second `pack()`, `==` against a deep copy taken before packing, and octets / `
 built object with the same final values. The same line goes through the Lean state machines of
 `Model/Mutation.lean` (whose observations are what the C11 theorems prescribe).
 
-KINDS is a table: adding a kind = one `Kind` subclass + one generator entry.
+KINDS is a table: adding a kind = one `Kind` subclass + one generator entry (+ one `Kind` record in Ops/Mutation.lean).
 """
 import copy
 import itertools
@@ -270,7 +270,7 @@ class FrameKind(Kind):
 def _expand(v):
     """{"fill": item, "n": k} stands for a list of k copies of item"""
     if isinstance(v, dict) and "fill" in v:
-        return [v["fill"]] * v["n"]
+        return [v["fill"]] * v["n"] + list(v.get("then", []))
     return v
 
 
@@ -410,15 +410,20 @@ def _obs(kind: Kind, obj, err: Optional[str], where: str) -> Dict[str, Any]:
     return o
 
 
+class ConstructorRefused(Exception):
+    """a constructor / decoder refused arguments of the documented domain. Deliberately not a documented category and
+    not a SelfCheckFailure: it is reported as a failure of its own kind, so the case minimiser (which keeps a
+    shrunk case only while the KIND of violation persists) cannot drift from a length / equality failure into
+    arguments outside the domain"""
+
+
 def _build(thunk, what: str):
-    """construct the initial object; the generators only produce arguments of the documented domain, so a
-    documented refusal here is a failure of its own kind (and keeps the case minimiser inside the domain)"""
     try:
         return thunk()
     except Exception as e:  # noqa
         if exc_category(e) not in DOCUMENTED:
             raise
-        raise SelfCheckFailure(f"{what} refused arguments of the documented domain: {type(e).__name__}: {e}")
+        raise ConstructorRefused(f"{what} refused arguments of the documented domain: {type(e).__name__}: {e}")
 
 
 def _run(kind: Kind, a) -> Dict[str, Any]:
@@ -888,10 +893,14 @@ class FinishedGen(Gen):
                 {"set": "responses", "v": {"fill": BIG_RESP, "n": 300}}]
 
     def boundary(self, rng, a):
-        R = lambda n: {"set": "responses", "v": {"fill": BIG_RESP, "n": n}}  # noqa
-        F = {"set": "fault", "v": hx(bytes([9]) * 8)}
-        return [[R(267), {"set": "cond", "v": 4}, F, R(268), {"set": "cond", "v": 0}, F, {"set": "cond", "v": 4},
-                 {"set": "responses", "v": None}, F]]
+        R = lambda n, then=(): {"set": "responses", "v": {"fill": BIG_RESP, "n": n, "then": list(then)}}  # noqa
+        F = {"set": "fault", "v": hx(bytes([9]) * 8)}            # 10 octets
+        C = lambda c: {"set": "cond", "v": c}  # noqa
+        # 267 x 245 + 108 octets of responses: data field 65525 (65527 with CRC) - a fault location of 10 octets
+        # fits exactly without CRC and is refused with CRC, whichever setter makes it count
+        near = c6v.resp_of_len(rng, 108)
+        return [[R(267), C(4), F, R(268), C(0), F, C(4), {"set": "responses", "v": None}, F],
+                [C(0), F, R(267, [near]), C(4), C(11), {"set": "fault", "v": None}, C(4), F, R(267), F, R(267, [near]), C(0)]]
 
 
 def _rand_opts(rng):
@@ -931,8 +940,8 @@ class MetadataGen(Gen):
     def boundary(self, rng, a):
         O = lambda n: {"set": "options", "v": {"fill": BIG_OPT, "n": n}}  # noqa
         return [[{"set": "src", "v": hx(b"s")}, {"set": "dst", "v": hx(b"d")}, O(254), {"set": "dst", "v": hx(b"y" * 255)},
-                 {"set": "src", "v": hx(b"x" * 200)}, O(255), O(253), {"set": "dst", "v": hx(b"y" * 255)},
-                 {"set": "src", "v": None}]]
+                 {"set": "src", "v": hx(b"x" * 255)}, {"set": "src", "v": hx(b"x" * 200)}, O(255), O(253),
+                 {"set": "dst", "v": hx(b"y" * 255)}, {"set": "src", "v": hx(b"z" * 255)}, O(254), {"set": "src", "v": None}]]
 
 
 GENS: Dict[str, Gen] = {"tc": TcGen(), "tm": TmGen(), "nak": NakGen(), "ka": KaGen(), "fd": FdGen(), "frame": FrameGen(),
@@ -971,7 +980,7 @@ class C11(Prop):
     exhaustive_note = ("every sequence of length 1..3 (thorough: 1..4) over a pool of 2-7 setter calls per class "
                        "(small arguments, clearing arguments and one refused oversized argument) for every class x "
                        "{CRC, large file} / {from constructor, from decoder} / construction rule; all 512 header "
-                       "configurations through the three CFDP constructors with a Lean model for the caller's PduConfig")
+                       "configurations through the six mutable CFDP constructors for the caller's PduConfig")
     trusted_base = [
         "object identity and aliasing are outside a functional model: 'the caller's objects are not modified' is carried by "
         "the tie (value snapshots of every caller-supplied PduConfig / params dataclass / TLV list / bytes before and after "
@@ -1001,7 +1010,7 @@ class C11(Prop):
     def cases(self, rng: random.Random, tier: str) -> Iterator[Case]:
         thorough = tier == "thorough"
         max_len = 40 if thorough else 12
-        n_rand = 100 if thorough else 10
+        n_rand = 60 if thorough else 10
         ex_len = 4 if thorough else 3
         for name, g in GENS.items():
             fixes = fixes_for(name, thorough)
@@ -1014,15 +1023,15 @@ class C11(Prop):
             for fx in fixes:
                 a = g.init(rng, **fx)
                 pool = g.pool(rng, a)
-                if len(pool) > 5 and not thorough:
-                    lim = 2 if len(pool) ** 3 > 250 else ex_len
-                else:
-                    lim = ex_len
+                budget = 700 if thorough else 250          # sequences of the longest length per configuration
+                lim = ex_len
+                while lim > 1 and len(pool) ** lim > budget:
+                    lim -= 1
                 for n in range(1, lim + 1):
                     for combo in itertools.product(pool, repeat=n):
                         yield seq_case(name, a, list(combo), f"exhaustive{n}")
                 if lim < ex_len:
-                    for _ in range(60):
+                    for _ in range(200 if thorough else 60):
                         yield seq_case(name, a, [rng.choice(pool) for _ in range(ex_len)], f"exhaustive{ex_len}-sample")
             # 3. random sequences of length 1..max_len (refused calls included with low probability)
             for fx in fixes:
